@@ -4,12 +4,24 @@
    and plain integer arithmetic in Z.  Only the enumerations `denom` and `aop` are shared with the model. *)
 From MRS Require Export Model.Base.
 From MRS Require Import Model.Amount.
+From Coq Require Import String.
 Open Scope list_scope.
 Open Scope Z_scope.
 
 (* ---- denominations: 1 XMR = 10^12 piconero, milli 10^9, micro 10^6, nano 10^3 ------------------- *)
 Definition decimals (d : denom) : nat :=
   match d with Monero => 12 | Millinero => 9 | Micronero => 6 | Nanonero => 3 | Piconero => 0 end%nat.
+
+(* names accepted after the amount (the first one is the name the formatter writes); "µ" is U+00B5 *)
+Definition aliases (d : denom) : list bytes :=
+  map bytes_of_string
+    match d with
+    | Monero => ["xmr"; "XMR"; "monero"]
+    | Millinero => ["millinero"; "mXMR"]
+    | Micronero => ["micronero"; "µXMR"; "mcXMR"]
+    | Nanonero => ["nanonero"; "nXMR"]
+    | Piconero => ["piconero"; "pXMR"]
+    end%string.
 
 (* ---- digits ----------------------------------------------------------------------------------- *)
 Definition digit_of (b : byte) : option Z :=
